@@ -54,6 +54,25 @@ returns the SUM of the values (softmax over one score, weight 1 broadcast along 
 run and what the implementation does is RECORDED (``seq_axis_carried_by=nobody ...``), nothing is judged, the
 model is not asked (``seq_carried``).
 
+ARGUMENT SPELLINGS (improvement round f, seeded change C20-f2): every module is built, and every call made,
+the way the case SPELLS it -- each optional constructor argument omitted (possible when its value is the
+documented default: dim = 0, scale_factor = 1.0, bias = False, hidden_size = 1000, out_size / d_v = None, bias_W* =
+False), passed positionally (documented order) or by keyword, the required ones positionally or by keyword,
+scale_factor also as a python int; the call with positional / keyword arguments, the mask omitted instead of
+passed as None, through ``__call__`` or ``forward``.  The spelling is drawn from the case's own seed in every
+stream and enumerated in ``_spelling_cases`` (flavour x optional argument at its documented default x {omitted,
+positional, keyword}, on its own and as the wrapped module of MultiHeadedAttention; out_size / d_v x {omitted,
+None, the value the default stands for}; the bias flags).  The Lean model is sent the constructor arguments AS
+SPELLED (null = omitted) and resolves the documented defaults itself (``SingleArgs.resolve`` /
+``MultiArgs.resolve``); the configuration the module shows (dim, scale_factor, bias presence, hidden size, d_v,
+out_size, d_q, d_k, rows of the projections) is compared with that resolution.  Predicates ``C20.ctor`` (the
+module built with every argument by keyword / every argument positional / every default-valued argument omitted
+/ out_size and d_v given as the values their defaults stand for / a deep copy returns the same output),
+``C20.call`` (every spelling of the call returns the same output), ``C20.check_input`` (check_input called
+directly accepts what forward accepts and raises what forward raises).  A USER-DEFINED subclass of
+GlobalSoftAttention (``user_dot_class``) is attended with on its own and wrapped: the multi-head = composition
+predicate calls the very module the MultiHeadedAttention holds, whatever its class.
+
 Correspondence: (a) every element of the broadcast batch (query vector, list of keys, list of
 values, keep flags) goes to the Lean model (``attend`` / ``mhaForwardH``), which also evaluates
 the declarative spec (``attendSpec`` / ``mhaSpecH``); (b) the raw arguments of the call go to the
@@ -123,6 +142,17 @@ def flavour_params(rng, flavour, Q, K, mode, bias, hidden, scale):
         return {"kind": "dot", "scale": float(parse_frac(scale))}
     if flavour == "general":
         return {"kind": "general", "W": _mat(gen(Q * K), Q, K), "b": gen(Q) if bias else None}
+    if mode in ("sat", "sat128"):
+        # SATURATING concat parameters for very wide hidden layers (the documented default hidden_size = 1000):
+        # W multiples of `f` = 32 x the denominator of the inputs, b multiples of 32, so that every pre-activation is a
+        # multiple of 32 and tanh is exactly -1 / 0 / 1 in float32 and in double; v in multiples of 1/64: every
+        # score is an exact multiple of 1/64 of ordinary size (no rounding in a sum of 1000 terms, and the
+        # softmax is not degenerate)
+        f = 128.0 if mode == "sat128" else 32.0   # sat128: head queries / keys are multiples of 1/4
+        fi = lambda n, lo, hi: [float(x) for x in _ints(rng, n, lo, hi)]  # noqa: E731
+        return {"kind": "concat", "W": _mat([f * x for x in fi(hidden * (Q + K), -2, 2)], hidden, Q + K),
+                "b": [32.0 * x for x in fi(hidden, -2, 2)] if bias else None,
+                "v": [x / 64.0 for x in fi(hidden, -3, 3)]}
     return {"kind": "concat", "W": _mat(gen(hidden * (Q + K)), hidden, Q + K),
             "b": gen(hidden) if bias else None, "v": gen(hidden)}
 
@@ -545,6 +575,8 @@ def make_inputs(case):
                 "inner": flavour_params(rng, case["flavour"], dq, dk, case["pmode"],
                                         case.get("bias", False), case.get("hidden", 2), case.get("scale", "1")),
             }
+    if case.get("user") and case["flavour"] == "dot" and params is not None:
+        (params if case["kind"] == "single" else params["inner"])["user"] = True
     how = case.get("layout")
     if how == "expanded":
         # the explicitly expanded tensors as stride-0 views
@@ -562,48 +594,240 @@ def make_inputs(case):
     return q, k, v, mask, params
 
 
-def make_single(fl, Q, K, dim, dt=None):
+# ---- argument spellings -------------------------------------------------------------------------------
+# The DOCUMENTED signatures (the "Parameters" sections of the class docstrings in _attn.py: order and
+# defaults), written down here and NOT read from the implementation: (required arguments, ((optional
+# argument, documented default), ...)).  out_size / d_v: None is the documented spelling of "unset"
+# (out_size = value_size, d_v = max(1, value_size // num_heads)).
+DOC_SIGNATURES = {
+    "dot": (("size",), (("dim", 0), ("scale_factor", 1.0))),
+    "general": (("query_size", "key_size"), (("dim", 0), ("bias", False))),
+    "concat": (("query_size", "key_size"), (("dim", 0), ("bias", False), ("hidden_size", 1000))),
+    "multi": (("query_size", "key_size", "value_size", "num_heads", "single_head_attention"),
+              (("out_size", None), ("d_v", None), ("bias_WQ", False), ("bias_WK", False), ("bias_WV", False),
+               ("bias_WC", False))),
+}
+# A spelling: {"req": "pos" | "kw", <optional argument>: "omit" | "pos" | "kw", "*": the spelling of the rest}.
+LEGACY_SPELLING = {"req": "pos", "dim": "pos", "*": "kw"}   # how every module was built before this round
+ALL_KW = {"req": "kw", "*": "kw"}
+ALL_POS = {"req": "pos", "*": "pos"}
+MINIMAL = {"req": "pos", "*": "omit"}
+CTOR_ALTERNATIVES = (
+    ("every argument passed by keyword", ALL_KW, False),
+    ("every argument passed positionally (documented order)", ALL_POS, False),
+    ("every argument that has its documented default value omitted", MINIMAL, False),
+    ("out_size / d_v passed as the VALUES their documented defaults stand for", ALL_KW, True),
+)
+CALL_HOWS = ("pos", "kw", "mask_kw", "omit_mask", "kw_omit_mask")
+
+
+def _is_default(val, default):
+    if val is None or default is None:
+        return val is None and default is None
+    return type(val) is type(default) and val == default
+
+
+def spell_args(kind, values, sp):
+    """(args, kwargs, effective spelling) of a constructor call.  A requested spelling is normalised to one
+    python and the documentation admit: an argument can be OMITTED only when its value is the documented
+    default, and passed POSITIONALLY only when every argument before it is."""
+    req, opt = DOC_SIGNATURES[kind]
+    sp = sp or LEGACY_SPELLING
+    rest = sp.get("*", "kw")
+    args, kwargs, eff = [], {}, {}
+    positional = sp.get("req", "pos") == "pos"
+    eff["req"] = "pos" if positional else "kw"
+    for n in req:
+        if positional:
+            args.append(values[n])
+        else:
+            kwargs[n] = values[n]
+    for n, default in opt:
+        how, val = sp.get(n, rest), values.get(n, default)
+        if how == "omit" and not _is_default(val, default):
+            how = "kw"
+        if n == "scale_factor" and sp.get("int_scale") and float(val).is_integer():
+            val = int(val)   # a python int where a float is documented ("usually 1"): argcheck.is_float admits it
+            eff["scale_factor:type"] = "int"
+        if how == "pos" and not positional:
+            how = "kw"
+        if how != "pos":
+            positional = False
+        if how == "pos":
+            args.append(val)
+        elif how == "kw":
+            kwargs[n] = val
+        eff[n] = how
+    return args, kwargs, eff
+
+
+def single_values(fl, Q, K, dim):
+    if fl["kind"] == "dot":
+        return {"size": Q, "dim": dim, "scale_factor": fl["scale"]}
+    vals = {"query_size": Q, "key_size": K, "dim": dim, "bias": fl["b"] is not None}
+    if fl["kind"] == "concat":
+        vals["hidden_size"] = len(fl["v"])
+    return vals
+
+
+def multi_values(case, params, inner, explicit=False):
+    f = case["flags"]
+    dv, O = eff_dims(case)
+    return {"query_size": case["Q"], "key_size": case["K"], "value_size": case["D"], "num_heads": params["H"],
+            "single_head_attention": inner,
+            "out_size": None if (case.get("O_default") and not explicit) else O,
+            "d_v": None if (case.get("dv_default") and not explicit) else dv,
+            "bias_WQ": f["wq"], "bias_WK": f["wk"], "bias_WV": f["wv"], "bias_WC": f["wc"]}
+
+
+def case_spelling(case, which):
+    if which == "inner" and case.get("user") and case["flavour"] == "dot":
+        return LEGACY_SPELLING   # the user's own constructor: (size, dim, scale), everything passed
+    return (case.get("ctor") or {}).get(which) or LEGACY_SPELLING
+
+
+def fl_stub(case):
+    """the constructor-relevant part of the flavour parameters, from the case alone"""
+    if case["flavour"] == "dot":
+        return {"kind": "dot", "scale": float(parse_frac(case.get("scale", "1")))}
+    b = [] if case.get("bias", False) else None
+    if case["flavour"] == "general":
+        return {"kind": "general", "b": b}
+    return {"kind": "concat", "b": b, "v": [0.0] * case.get("hidden", 2)}
+
+
+def effective_spelling(case):
+    """{"inner": ..., "outer": ...}: how the constructor arguments of the case are really spelled (after the
+    normalisation of spell_args)"""
+    fl = fl_stub(case)
+    Q, K = (case["Q"], case["K"]) if case["kind"] == "single" else (case["dq"], case["dk"])
+    out = {"inner": spell_args(fl["kind"], single_values(fl, Q, K, case["dim"]), case_spelling(case, "inner"))[2]}
+    if case["kind"] == "multi":
+        out["outer"] = spell_args("multi", multi_values(case, {"H": case["H"]}, None), case_spelling(case, "outer"))[2]
+    return out
+
+
+def ctor_args_json(case, params):
+    """The optional constructor arguments AS SPELLED, for the Lean model (null = omitted / None): the model
+    resolves them with the documented defaults (SingleArgs.resolve / MultiArgs.resolve)."""
+    fl = params if case["kind"] == "single" else params["inner"]
+    Q, K = (case["Q"], case["K"]) if case["kind"] == "single" else (params["dq"], params["dk"])
+    vals = single_values(fl, Q, K, case["dim"])
+    _, _, eff = spell_args(fl["kind"], vals, case_spelling(case, "inner"))
+
+    def js(n, x):
+        return frac_str(x) if n == "scale_factor" else x
+    inner = {n: (None if eff[n] == "omit" else js(n, vals[n])) for n, _ in DOC_SIGNATURES[fl["kind"]][1]}
+    if case["kind"] == "single":
+        return inner
+    mv = multi_values(case, params, None)
+    _, _, eo = spell_args("multi", mv, case_spelling(case, "outer"))
+    return {"inner": inner, "outer": {n: (None if eo[n] == "omit" else mv[n]) for n, _ in DOC_SIGNATURES["multi"][1]}}
+
+
+def observed_ctor(mod):
+    """what the constructed module shows of its configuration (compared with the model's resolution)"""
+    o = {"dim": mod.dim}
+    if hasattr(mod, "single_head_attention"):
+        inner = mod.single_head_attention
+        o.update({"inner": observed_ctor(inner), "out_size": mod.out_size, "d_v": mod.d_v, "d_q": mod.d_q,
+                  "d_k": mod.d_k, "num_heads": mod.num_heads, "WC_rows": mod.WC.weight.shape[0],
+                  "WV_rows": mod.WV.weight.shape[0], "WQ_rows": mod.WQ.weight.shape[0],
+                  "WK_rows": mod.WK.weight.shape[0]})
+        return o
+    if hasattr(mod, "scale_factor"):
+        o["scale_factor"] = frac_str(float(mod.scale_factor))
+    else:
+        o["bias"] = mod.bias is not None
+        if hasattr(mod, "v"):
+            o["hidden_size"] = mod.v.numel()
+    return o
+
+
+def invoke(mod, call, q, k, v, mask):
+    """The call as the case spells it: positional / keyword arguments (documented names query, key, value,
+    mask), the mask omitted instead of passed as None, through __call__ or forward."""
+    call = call or {}
+    how = call.get("how", "pos")
+    entry = call.get("entry", "call")
+    f = mod.forward if entry == "forward" else mod.check_input if entry == "check_input" else mod
+    if how == "kw":
+        return f(query=q, key=k, value=v, mask=mask)
+    if how == "mask_kw":
+        return f(q, k, v, mask=mask)
+    if how == "omit_mask" and mask is None:
+        return f(q, k, v)
+    if how == "kw_omit_mask":
+        return f(query=q, key=k, value=v) if mask is None else f(value=v, mask=mask, key=k, query=q)
+    return f(q, k, v, mask)
+
+
+_USER = {}
+
+
+def user_dot_class():
+    """A USER-DEFINED flavour: a subclass of the abstract GlobalSoftAttention written outside the library, with
+    its own constructor and score function (a dot product with a fixed scale -- the model's `.dot scale`).  The
+    documentation of MultiHeadedAttention admits "an instance of a subclass of GlobalSoftAttention" as the wrapped
+    module; the library cannot know this class, so whatever it does for its own three flavours by looking at the
+    class of the wrapped module does not happen here, and the property must hold all the same."""
+    if "cls" not in _USER:
+        from pydrobert.torch.modules import GlobalSoftAttention
+
+        class UserScaledDot(GlobalSoftAttention):
+            def __init__(self, size, dim=0, scale=1.0):
+                super().__init__(size, size, dim)
+                self.scale_factor = scale
+
+            def score(self, query, key):
+                return (query.unsqueeze(self.dim) * key).sum(-1) * self.scale_factor
+        _USER["cls"] = UserScaledDot
+    return _USER["cls"]
+
+
+def make_single(fl, Q, K, dim, dt=None, sp=None):
     import torch
     from pydrobert.torch.modules import (ConcatSoftAttention, DotProductSoftAttention,
                                          GeneralizedDotProductSoftAttention)
     dt = dt or torch.float32
+    if fl.get("user"):
+        return user_dot_class()(Q, dim, fl["scale"])
+    cls = {"dot": DotProductSoftAttention, "general": GeneralizedDotProductSoftAttention,
+           "concat": ConcatSoftAttention}[fl["kind"]]
+    args, kwargs, _ = spell_args(fl["kind"], single_values(fl, Q, K, dim), sp)
     with torch.no_grad():
+        m = cls(*args, **kwargs)
         if fl["kind"] == "dot":
-            return DotProductSoftAttention(Q, dim, scale_factor=fl["scale"])
-        if fl["kind"] == "general":
-            m = GeneralizedDotProductSoftAttention(Q, K, dim, bias=fl["b"] is not None).to(dt)
-            m.weight.copy_(torch.tensor(fl["W"], dtype=dt))
-            if fl["b"] is not None:
-                m.bias.copy_(torch.tensor(fl["b"], dtype=dt))
             return m
-        m = ConcatSoftAttention(Q, K, dim, bias=fl["b"] is not None, hidden_size=len(fl["v"])).to(dt)
+        m = m.to(dt)
         m.weight.copy_(torch.tensor(fl["W"], dtype=dt))
         if fl["b"] is not None:
             m.bias.copy_(torch.tensor(fl["b"], dtype=dt))
-        m.v.copy_(torch.tensor(fl["v"], dtype=dt))
+        if fl["kind"] == "concat":
+            m.v.copy_(torch.tensor(fl["v"], dtype=dt))
         return m
 
 
-def make_multi(case, params):
+def make_multi(case, params, sp_in=None, sp_out=None, explicit=False):
+    """MultiHeadedAttention around a freshly built single-head module, both built with the case's spelling of
+    the constructor arguments (or the given alternative spellings)."""
     import torch
     from pydrobert.torch.modules import MultiHeadedAttention
-    f = case["flags"]
     dt = _tdtype(case)
+    sp_in = sp_in or case_spelling(case, "inner")
+    sp_out = sp_out or case_spelling(case, "outer")
     # MultiHeadedAttention.__init__ calls reset_parameters() on the wrapped attention, so the
     # wrapped attention's parameters are (re)loaded after construction
-    inner = make_single(params["inner"], params["dq"], params["dk"], case["dim"], dt)
-    m = MultiHeadedAttention(case["Q"], case["K"], case["D"], params["H"], inner,
-                             out_size=None if case.get("O_default") else case["O"],
-                             d_v=None if case.get("dv_default") else params["dv"],
-                             bias_WQ=f["wq"], bias_WK=f["wk"], bias_WV=f["wv"],
-                             bias_WC=f["wc"]).to(dt)
+    inner = make_single(params["inner"], params["dq"], params["dk"], case["dim"], dt, sp_in)
+    args, kwargs, _ = spell_args("multi", multi_values(case, params, inner, explicit), sp_out)
+    m = MultiHeadedAttention(*args, **kwargs).to(dt)
     if case.get("vpath"):
         # mixed precision inside the module: the value path (W^V, W^C, and the value argument) in float64
         m.WV.to(torch.float64)
         m.WC.to(torch.float64)
     if [m.d_v, m.out_size] != list(eff_dims(case)):
         return m  # wrong defaults: reported by _run_multi (the parameters would not fit)
-    inner2 = make_single(params["inner"], params["dq"], params["dk"], case["dim"], dt)
+    inner2 = make_single(params["inner"], params["dq"], params["dk"], case["dim"], dt, sp_in)
     m.single_head_attention.load_state_dict(inner2.state_dict())
     with torch.no_grad():
         for name in ("Q", "K", "V", "C"):
@@ -612,6 +836,16 @@ def make_multi(case, params):
             if lin.bias is not None:
                 lin.bias.copy_(torch.tensor(params["b" + name], dtype=dt))
     return m
+
+
+def same_output(o, out, scale, tol):
+    """None when two calls that must be the SAME function agree (bit for bit, else within the case tolerance)"""
+    import torch
+    if o.shape == out.shape and o.dtype == out.dtype and torch.equal(o, out):
+        return None
+    if o.dtype != out.dtype:
+        return f"dtype {o.dtype} vs {out.dtype}"
+    return close(o, out, scale, tol)
 
 
 @contextlib.contextmanager
@@ -715,7 +949,7 @@ def fl_json(fl):
             return [f(y) for y in x]
         return frac_str(x)
     out = {"kind": fl["kind"]}
-    for key in ("scale", "W", "b", "v"):
+    for key in ("W", "b", "v"):   # the dot flavour's scale_factor is a constructor argument: see ctor_args_json
         if key in fl:
             out[key] = f(fl[key])
     return out
@@ -827,8 +1061,18 @@ class C20(PropertyCheck):
             "expanded views), value-is-key aliasing, mixed dtypes varied in every stream; who carries the sequence axis "
             "(key of size 1 there x {mask of the full length, all-true mask, mask of size 1, no mask} x flavour x sign "
             "of dim, 6 % of the free single-head stream; without a full-length mask the call is outside the "
-            "documented shapes and only recorded). Integer q/k/v, int/dyadic/float "
-            "parameters. non-trivial: >= 1 masked and >= 2 kept positions in some element of the broadcast "
+            "documented shapes and only recorded); ARGUMENT SPELLINGS: every optional constructor "
+            "argument (dim, scale_factor, bias, hidden_size; out_size, d_v, bias_WQ/WK/WV/WC) omitted (when its value is "
+            "the documented default) / positional / by keyword, the required ones positional or by keyword, "
+            "scale_factor as a python int; enumerated per flavour x argument x {omitted, positional, keyword} on its "
+            "own and wrapped in MultiHeadedAttention with the argument at its documented default (dim 0, scale 1, no "
+            "bias, hidden_size 1000), out_size / d_v x {omitted, None positional, None keyword, the value the default "
+            "stands for}, every bias flag x {omitted, False positional, False keyword}, and drawn from the case's "
+            "seed in EVERY other stream; the call with positional / keyword arguments (any order), the mask omitted "
+            "instead of None, through __call__ or forward(), check_input called directly; a USER-DEFINED subclass "
+            "of GlobalSoftAttention (dot score with a scale) on its own and as the wrapped module (10 % / 25 % of the "
+            "dot cases + 6 enumerated). Integer q/k/v, int/dyadic/float "
+            "parameters (saturating exact ones for hidden_size 1000 in single precision). non-trivial: >= 1 masked and >= 2 kept positions in some element of the broadcast "
             "batch; distinct by the full case dict")
     assumptions = [
         "float32 rounding is not modelled: weights/outputs compared within 1e-5 (relative to the value "
@@ -853,6 +1097,15 @@ class C20(PropertyCheck):
         "sent to the Lean model",
         "C20.split: the shares of the blocks are sums of the softmax weights captured from the implementation; "
         "the mixture is formed in double precision and compared within max(case tolerance, (T + 2) eps(P)) max|v|",
+        "argument spellings: the documented signatures (argument order, defaults: dim = 0, scale_factor = 1.0, "
+        "bias = False, hidden_size = 1000, out_size = None -> value_size, d_v = None -> max(1, value_size // "
+        "num_heads), bias_W* = False) are written in the harness (DOC_SIGNATURES) and in the Lean model "
+        "(SingleArgs.resolve / MultiArgs.resolve), not read from the implementation; the model is sent the "
+        "arguments AS SPELLED (null = omitted / None) and resolves them itself; modules built from differently "
+        "spelled argument lists, differently spelled calls and a deep copy are compared bit for bit, falling "
+        "back to the case tolerance (the same parameters are loaded into every module)",
+        "hidden_size = 1000 in single precision uses saturating parameters (W, b multiples of 32: tanh is exactly "
+        "-1 / 0 / 1; v multiples of 1/64: every score is exact), in double precision any parameters",
         "long sequences: comparisons of outputs (with the model, between calls) use max(1e-5, (T + 2) eps32) in "
         "single precision -- the forward error bound of the two sums over T terms; larger than 1e-5 only for "
         "T > 82 (1.2e-4 at T = 1024; observed gaps of 1000 float32 cases with T >= 512 reached 0.73e-5); weights and "
@@ -1293,7 +1546,122 @@ class C20(PropertyCheck):
                 out.append(c)
         return out
 
+    # ---- argument spellings ----------------------------------------------------------------------------
+    @staticmethod
+    def _spell(c):
+        """How the case SPELLS its constructor calls and its forward call (in place; drawn from the case's own
+        seed, so that the streams of all other fields are what they were): every optional constructor argument
+        omitted (possible when its value is the documented default) / positional / by keyword, the required ones
+        positional or by keyword; the call with positional / keyword arguments, the mask omitted instead of None,
+        through __call__ or forward."""
+        if c["kind"] == "shape" or "ctor" in c:
+            return c
+        r = random.Random(c["seed"] ^ 0xC7012)
+
+        def one(kind):
+            # a positional prefix of random length (python: positional arguments come first), the rest omitted
+            # (where the value is the documented default) or by keyword
+            names = [n for n, _ in DOC_SIGNATURES[kind][1]]
+            req = r.choice(["pos", "pos", "pos", "kw"])
+            npos = r.randint(0, len(names)) if req == "pos" and r.random() < 0.5 else 0
+            return {"req": req, **{n: "pos" if j < npos else r.choice(["omit", "omit", "kw"])
+                                   for j, n in enumerate(names)},
+                    **({"int_scale": True} if kind == "dot" and r.random() < 0.3 else {})}
+        c["ctor"] = {"inner": one(c["flavour"])}
+        if c["kind"] == "multi":
+            c["ctor"]["outer"] = one("multi")
+        c["call"] = {"how": r.choice(["pos", "pos", "kw", "mask_kw", "omit_mask", "omit_mask", "kw_omit_mask"]),
+                     "entry": r.choice(["call", "call", "call", "forward"])}
+        if c["flavour"] == "dot" and r.random() < (0.25 if c["kind"] == "multi" else 0.1):
+            c["user"] = True   # a user-defined subclass of GlobalSoftAttention (see user_dot_class)
+        return c
+
+    def _spelling_cases(self, rng, tier):
+        """OMITTED vs. DEFAULT vs. POSITIONAL vs. KEYWORD, enumerated: for every flavour, on its own and wrapped
+        in MultiHeadedAttention, every optional constructor argument at its documented default value (dim = 0,
+        scale_factor = 1, bias = False, hidden_size = 1000) x {omitted, positional, keyword}; for
+        MultiHeadedAttention out_size / d_v x {omitted, None positional, None by keyword, the value the default
+        stands for} and every bias flag x {omitted, False positional, False by keyword}.  The other arguments of
+        the same call are spelled at random."""
+        def force(c, which, arg, how):
+            c["T"] = max(3, c["T"])   # not degenerate: a single position would hide every change of the scores
+            self._spell(c)
+            sp = c["ctor"][which]
+            names = [n for n, _ in DOC_SIGNATURES[c["flavour"] if which == "inner" else "multi"][1]]
+            if how == "pos":   # positional: everything before it must be positional, too
+                sp["req"] = "pos"
+                for n in names[:names.index(arg)]:
+                    sp[n] = "pos"
+            sp[arg] = how
+            return c
+
+        def at_default(c, arg):
+            if arg == "scale_factor":
+                c["scale"] = "1"
+            elif arg == "bias":
+                c["bias"] = False
+            elif arg == "hidden_size":
+                # the documented default width: saturating parameters in single precision (exact scores, see
+                # flavour_params), any parameters in double precision
+                c["hidden"] = 1000
+                if rng.random() < 0.5:
+                    c["dtype"] = "float64"
+                    c["pmode"] = rng.choice(["int", "dyadic", "float"]) if c["kind"] == "single" else \
+                        rng.choice(["dyadic", "float"])
+                else:
+                    c.pop("dtype", None)
+                    c["pmode"] = "sat" if c["kind"] == "single" else "sat128"
+            return c
+        for flavour in FLAVOURS:
+            for arg, _ in DOC_SIGNATURES[flavour][1]:
+                for how in ("omit", "pos", "kw"):
+                    # on its own (dim = 0: the sequence axis first)
+                    n = rng.choice([2, 3, 3, 4])
+                    nb = 0 if arg == "dim" else rng.randint(0, n - 2)
+                    c = self._single(rng, flavour, n, nb, arg != "dim" and rng.random() < 0.3, tier)
+                    c.pop("kT", None)
+                    yield force(at_default(c, arg), "inner", arg, how)
+                    # wrapped
+                    flags = {k: rng.random() < 0.5 for k in ("wq", "wk", "wv", "wc")}
+                    c = self._multi(rng, flavour, flags, rng.randint(1, 3), rng.random() < 0.5, tier,
+                                    layout=rng.choice(["TB", "T"]) if arg == "dim" else None)
+                    yield force(at_default(c, arg), "inner", arg, how)
+        # a user-defined subclass of GlobalSoftAttention, on its own and wrapped (every scale of the generator)
+        for scale in ("1", "1/2", "2"):
+            n = rng.choice([2, 3, 3, 4])
+            c = self._single(rng, "dot", n, rng.randint(0, n - 2), rng.random() < 0.3, tier)
+            c.update({"scale": scale, "user": True, "T": max(3, c["T"])})
+            c.pop("kT", None)
+            yield c
+            flags = {k: rng.random() < 0.5 for k in ("wq", "wk", "wv", "wc")}
+            c = self._multi(rng, "dot", flags, rng.randint(1, 3), rng.random() < 0.5, tier)
+            c.update({"scale": scale, "user": True, "T": max(3, c["T"]), "dq": 2, "dk": 2, "H": max(2, c["H"])})
+            yield c
+        for j, arg in enumerate(n for n, _ in DOC_SIGNATURES["multi"][1]):
+            for how in ("omit", "pos", "kw", "value"):
+                if how == "value" and not arg.endswith(("size", "d_v")):
+                    continue
+                flags = {k: rng.random() < 0.5 for k in ("wq", "wk", "wv", "wc")}
+                c = self._multi(rng, FLAVOURS[(j + len(how)) % 3], flags, rng.randint(1, 3), rng.random() < 0.5, tier)
+                c.pop("dv_default", None)
+                c.pop("O_default", None)
+                if arg in ("out_size", "d_v"):
+                    key = "O_default" if arg == "out_size" else "dv_default"
+                    if how == "value":
+                        # the value the documented default stands for, passed explicitly
+                        c["O" if arg == "out_size" else "dv"] = c["D"] if arg == "out_size" else max(1, c["D"] // c["H"])
+                        how = rng.choice(["pos", "kw"])
+                    else:
+                        c[key] = True
+                else:
+                    c["flags"][{"bias_WQ": "wq", "bias_WK": "wk", "bias_WV": "wv", "bias_WC": "wc"}[arg]] = False
+                yield force(c, "outer", arg, how)
+
     def cases(self, rng, tier):
+        for c in self._cases(rng, tier):
+            yield self._spell(c)
+
+    def _cases(self, rng, tier):
         reps = {"quick": 1, "thorough": 8, "search": 4}[tier]
         # every legal sequence axis, both signs, every flavour
         for _ in range(reps):
@@ -1339,6 +1707,10 @@ class C20(PropertyCheck):
         for _ in range(reps):
             for c in self._mixed_cases(rng, tier):
                 yield c
+        # argument spellings: omitted / default / positional / keyword, enumerated
+        for _ in range(reps):
+            for c in self._spelling_cases(rng, tier):
+                yield c
         # long sequences / long vectors
         for _ in range(2 * reps):
             for flavour in FLAVOURS:
@@ -1382,13 +1754,28 @@ class C20(PropertyCheck):
         k = torch.zeros(case["k"])
         v = torch.ones(case["v"])
         m = None if case["m"] is None else torch.ones(case["m"], dtype=torch.bool)
+        # the constructors are spelled differently from case to case (omitted / positional / keyword optional
+        # arguments; the arguments of this stream all have their documented defaults except dim and hidden_size)
+        srng = random.Random(case["seed"] ^ 0xC7012)
+        sp = {"req": srng.choice(["pos", "pos", "kw"]), "*": srng.choice(["omit", "omit", "pos", "kw"])}
+        spo = {"req": srng.choice(["pos", "pos", "kw"]), "*": srng.choice(["omit", "omit", "pos", "kw"])}
+        flp = ({"kind": "dot", "scale": 1.0} if fl == "dot" else {"kind": "general", "W": None, "b": None}
+               if fl == "general" else {"kind": "concat", "W": None, "b": None, "v": [1.0, 1.0]})
+
+        def bare(Q, K):
+            cls = {"dot": DotProductSoftAttention, "general": GeneralizedDotProductSoftAttention,
+                   "concat": ConcatSoftAttention}[fl]
+            args, kwargs, _ = spell_args(fl, single_values(flp, Q, K, case["dim"]), sp)
+            return cls(*args, **kwargs)
         if case["multi"]:
-            inner = make_single({"kind": "dot", "scale": 1.0} if fl == "dot" else
-                                {"kind": "general", "W": [[1.0]], "b": None} if fl == "general" else
-                                {"kind": "concat", "W": [[1.0, 1.0]], "b": None, "v": [1.0]}, 1, 1, case["dim"])
+            inner = bare(1, 1)
+            vals = {"query_size": case["query_size"], "key_size": case["key_size"],
+                    "value_size": case["value_size"], "num_heads": 1, "single_head_attention": inner,
+                    "out_size": None, "d_v": case["value_size"], "bias_WQ": False, "bias_WK": False,
+                    "bias_WV": False, "bias_WC": False}
+            args, kwargs, _ = spell_args("multi", vals, spo)
             try:
-                mod = MultiHeadedAttention(case["query_size"], case["key_size"], case["value_size"], 1, inner,
-                                           d_v=case["value_size"])
+                mod = MultiHeadedAttention(*args, **kwargs)
             except ValueError:
                 if case.get("defect") == "ctor_neg_dim":
                     return {"raised": "ValueError", "at": "constructor"}
@@ -1396,17 +1783,21 @@ class C20(PropertyCheck):
             with torch.no_grad():
                 mod.WV.weight.copy_(torch.eye(case["value_size"]))
                 mod.WC.weight.copy_(torch.eye(case["value_size"]))
-        elif fl == "dot":
-            mod = DotProductSoftAttention(case["query_size"], case["dim"])
-        elif fl == "concat":
-            mod = ConcatSoftAttention(case["query_size"], case["key_size"], case["dim"], hidden_size=2)
         else:
-            mod = GeneralizedDotProductSoftAttention(case["query_size"], case["key_size"], case["dim"])
+            mod = bare(case["query_size"], case["key_size"])
+        # check_input called directly (the mask spelled like in the call): the same verdict as forward's
+        how = srng.choice(CALL_HOWS)
         try:
-            out = mod(q, k, v, m)
+            invoke(mod, {"how": how, "entry": "check_input"}, q, k, v, m)
+            ci = None
+        except Exception as e:  # noqa
+            ci = type(e).__name__
+        try:
+            out = invoke(mod, {"how": how, "entry": srng.choice(["call", "call", "forward"])}, q, k, v, m)
         except (ValueError, RuntimeError, IndexError) as e:
-            return {"raised": type(e).__name__}
-        return {"shape": list(out.shape), "all_ones": bool(torch.allclose(out, torch.ones_like(out), atol=1e-5))}
+            return {"raised": type(e).__name__, "check_input": ci}
+        return {"shape": list(out.shape), "check_input": ci,
+                "all_ones": bool(torch.allclose(out, torch.ones_like(out), atol=1e-5))}
 
     def _property_checks(self, case, mod, q, k, v, mask, out, convex):
         """Property-only predicates on the implementation. -> list of [what, signature]"""
@@ -1546,6 +1937,77 @@ class C20(PropertyCheck):
                     break
         return fails
 
+    def _spelling_checks(self, case, params, mod, q, k, v, mask, out):
+        """ARGUMENT SPELLINGS change nothing: (a) the call with positional / keyword arguments, the mask omitted
+        instead of passed as None, through __call__ / forward; (b) the module built with every optional
+        constructor argument passed by keyword / positionally (documented order) / omitted wherever it has its
+        documented default value / with out_size and d_v given as the values their defaults stand for; (c) a
+        deep copy of the module.  Each must return what the case's own spelling returned."""
+        import copy
+        import torch
+        fails = []
+        if not torch.isfinite(out.to(torch.float64)).all():
+            return fails
+        A, P, _ = self._dtypes(case, mod, q, k, v)
+        tol = case_tol(case, A, P)
+        scale = max(1.0, float(out.to(torch.float64).abs().max())) if out.numel() else 1.0
+        main = case.get("call") or {}
+        for how in CALL_HOWS:
+            if "omit" in how and mask is not None and how != "kw_omit_mask":
+                continue
+            for entry in ("call", "forward"):
+                if (how, entry) == (main.get("how", "pos"), main.get("entry", "call")):
+                    continue
+                desc = {"pos": "positional arguments", "kw": "keyword arguments query=, key=, value=, mask=",
+                        "mask_kw": "mask= by keyword", "omit_mask": "the mask omitted (not passed as None)",
+                        "kw_omit_mask": "keyword arguments in another order" if mask is not None else
+                        "keyword arguments, the mask omitted"}[how] + (" through forward()" if entry == "forward" else "")
+                try:
+                    d = same_output(invoke(mod, {"how": how, "entry": entry}, q, k, v, mask), out, scale, tol)
+                except Exception as e:  # noqa
+                    d = f"raised {type(e).__name__}: {e}"[:160]
+                if d:
+                    fails.append([f"the same call spelled with {desc} differs from the call as the case spells it "
+                                  f"({main or 'positional, __call__'}): {d}", "C20.call"])
+                    break
+            if fails:
+                break
+        # check_input called directly (its mask is optional, too): a call forward accepts must pass, whatever
+        # the spelling, and return nothing
+        for how in CALL_HOWS:
+            if "omit" in how and mask is not None and how != "kw_omit_mask":
+                continue
+            try:
+                r = invoke(mod, {"how": how, "entry": "check_input"}, q, k, v, mask)
+                d = None if r is None else f"returned {type(r).__name__}"
+            except Exception as e:  # noqa
+                d = f"raised {type(e).__name__}: {e}"[:160]
+            if d:
+                fails.append([f"check_input called directly ({how}) on a call forward accepts: {d}", "C20.check_input"])
+                break
+        alts = []
+        if case["kind"] == "single":
+            for name, sp, explicit in CTOR_ALTERNATIVES[:3]:
+                alts.append((name, lambda sp=sp: make_single(params, case["Q"], case["K"], case["dim"],
+                                                             _tdtype(case), sp)))
+        else:
+            for name, sp, explicit in CTOR_ALTERNATIVES:
+                alts.append((name, lambda sp=sp, ex=explicit: make_multi(case, params, sp, sp, ex)))
+            alts.append(("the wrapped module built with its default-valued arguments omitted, the multi-headed one "
+                         "with every argument by keyword", lambda: make_multi(case, params, MINIMAL, ALL_KW)))
+        alts.append(("a deep copy of the module", lambda: copy.deepcopy(mod)))
+        for name, build in alts:
+            try:
+                d = same_output(build()(q, k, v, mask), out, scale, tol)
+            except Exception as e:  # noqa
+                d = f"raised {type(e).__name__}: {e}"[:160]
+            if d:
+                spelled = effective_spelling(case)
+                fails.append([f"module built with {name} differs from the module as the case builds it "
+                              f"(spelling {spelled}): {d}", "C20.ctor"])
+                break
+        return fails
+
     def _dtypes(self, case, mod, q, k, v):
         """(A, P, legal) by torch's promotion rules; for a call outside those rules that was accepted all the
         same (only a changed implementation does that) the dtypes the implementation shows"""
@@ -1560,14 +2022,14 @@ class C20(PropertyCheck):
     def _run_single(self, case):
         import torch
         q, k, v, mask, params = make_inputs(case)
-        mod = make_single(params, case["Q"], case["K"], case["dim"], _tdtype(case))
+        mod = make_single(params, case["Q"], case["K"], case["dim"], _tdtype(case), case_spelling(case, "inner"))
         store = []
         if not case.get("kT", True) and not seq_carried(case, q, k, v, mask):
             return seq_axis_observation(case, mod, q, k, v, mask)
         with torch.no_grad():
             try:
                 with capture_softmax(store):
-                    out = mod(q, k, v, mask)
+                    out = invoke(mod, case.get("call"), q, k, v, mask)
             except (RuntimeError, TypeError) as exc:
                 if case.get("mixed") and not expected_dtypes(case)[2]:
                     # dtypes that torch's own operations do not combine: outside the domain of the property
@@ -1576,7 +2038,7 @@ class C20(PropertyCheck):
             A, P, _ = self._dtypes(case, mod, q, k, v)
             e = mod.score(q, k)
             i, ET, Eb, qf, kf, vf, mf = expand_all(case, q, k, v, mask)
-            obs = {"shape": list(out.shape), "checks": [],
+            obs = {"shape": list(out.shape), "checks": [], "ctor": observed_ctor(mod),
                    "dtypes": {"weights": str(e.dtype), "out": str(out.dtype)}}
             obs["checks"] = self._property_checks(case, mod, q, k, v, mask, out, convex=True)
             T = ET[i]
@@ -1639,6 +2101,7 @@ class C20(PropertyCheck):
                 except RuntimeError:
                     obs["checks"].append([f"softmax output shape {list(store[0].shape)} does not broadcast to {ET}",
                                           "C20.shape"])
+            obs["checks"] += self._spelling_checks(case, params, mod, q, k, v, mask, out)
         return obs
 
     def _run_multi(self, case):
@@ -1648,7 +2111,7 @@ class C20(PropertyCheck):
         H, dq, dk, dv = params["H"], params["dq"], params["dk"], params["dv"]
         O = eff_dims(case)[1]
         obs = {"has_bias": {n: getattr(mod, "W" + n.upper()[1]).bias is not None for n in ("wq", "wk", "wv", "wc")},
-               "checks": []}
+               "checks": [], "ctor": observed_ctor(mod)}
         if [mod.d_v, mod.out_size] != [dv, O]:
             obs["checks"].append([f"d_v, out_size = {[mod.d_v, mod.out_size]}, documented {[dv, O]} "
                                   f"(defaults: max(1, value_size // num_heads), value_size)", "C20.multihead.defaults"])
@@ -1661,7 +2124,7 @@ class C20(PropertyCheck):
         with torch.no_grad():
             try:
                 with capture_softmax(store):
-                    out = mod(q, k, v, mask)
+                    out = invoke(mod, case.get("call"), q, k, v, mask)
             finally:
                 hook.remove()
             obs["shape"] = list(out.shape)
@@ -1719,7 +2182,10 @@ class C20(PropertyCheck):
                 d = close(out, exp, scale)
                 if d:
                     obs["checks"].append([f"multi-headed output differs from project -> per-head attention with the "
-                                          f"shared mask -> concat -> project ({d})", "C20.multihead.compose"])
+                                          f"shared mask -> concat -> project ({d}); the per-head attention is the "
+                                          f"module's own single_head_attention ({type(sha).__name__}, "
+                                          f"{sha.extra_repr()}), called on each head slice", "C20.multihead.compose"])
+            obs["checks"] += self._spelling_checks(case, params, mod, q, k, v, mask, out)
         for n, want in case["flags"].items():
             if obs["has_bias"][n] != want:
                 obs["checks"].append([f"bias on {n.upper()[0]}^{n.upper()[1]}: requested {want}, "
@@ -1755,19 +2221,21 @@ class C20(PropertyCheck):
         def tj(x):
             return None if x is None else {"shape": list(x.shape), "data": (
                 [bool(b) for b in x.reshape(-1).tolist()] if x.dtype == torch.bool else tl(x))}
-        tens = {"dim": case["dim"], "Q": case["Q"], "K": case["K"],
+        tens = {"Q": case["Q"], "K": case["K"],   # dim: resolved by the model from the constructor arguments
                 "vsz": case["D"] if case["kind"] == "multi" else None,
                 "q": tj(q), "k": tj(k), "v": tj(v), "mask": tj(mask)}
         if case["kind"] == "single":
-            return {"op": "c20.single", "case": {"flavour": fl_json(params), "D": case["D"], "elems": elems,
-                                                 "tensor": tens}}
-        pj = {key: params[key] for key in ("H", "dq", "dk", "dv")}
+            return {"op": "c20.single", "case": {"ctor": ctor_args_json(case, params), "flavour": fl_json(params),
+                                                 "D": case["D"], "elems": elems, "tensor": tens}}
+        pj = {key: params[key] for key in ("H", "dq", "dk")}   # d_v / out_size: resolved by the model
+        pj["D"] = case["D"]
         for key in ("WQ", "WK", "WV", "WC"):
             pj[key] = [[frac_str(x) for x in r] for r in params[key]]
         for key in ("bQ", "bK", "bV", "bC"):
             pj[key] = [frac_str(x) for x in params[key]]
         pj["inner"] = fl_json(params["inner"])
-        return {"op": "c20.multi", "case": {"flags": case["flags"], "params": pj, "elems": elems, "tensor": tens}}
+        return {"op": "c20.multi", "case": {"ctor": ctor_args_json(case, params), "params": pj, "elems": elems,
+                                            "tensor": tens}}
 
     # ---------------------------------------------------------------- comparison
     _worst = {}
@@ -1821,6 +2289,7 @@ class C20(PropertyCheck):
         if "rejected" in impl or "seqaxis" in impl:
             return out  # dtypes torch does not combine / sequence axis not carried: outside the domain
         elems = model["elems"]
+        out += self._ctor_diff(case, impl.get("ctor"), model.get("ctor"))
         A, P, _ = expected_dtypes(case)
         ctol = case_tol(case) / TOL   # 1 unless float16 / bfloat16 is in the chain
         wtol = max(TOL, _heps(A)) / TOL
@@ -1878,6 +2347,42 @@ class C20(PropertyCheck):
                         break
         return out
 
+    @staticmethod
+    def _ctor_diff(case, got, want):
+        """the configuration the constructed module shows vs. the model's resolution of the constructor
+        arguments as spelled (documented defaults for the omitted ones)"""
+        if got is None or want is None:
+            return []
+        out = []
+
+        def single(g, w, kind, where):
+            keys = {"dot": ("dim", "scale_factor"), "general": ("dim", "bias"),
+                    "concat": ("dim", "bias", "hidden_size")}[kind]
+            for key in keys:
+                a, b = g.get(key), w.get(key)
+                if key == "scale_factor":
+                    a, b = parse_frac(a), parse_frac(b)
+                if a != b:
+                    out.append(f"constructor: {where}{key} of the module is {g.get(key)}, the documented "
+                               f"resolution of the arguments as spelled ({effective_spelling(case)}) is {w.get(key)}")
+        if case["kind"] == "single":
+            single(got, want, case["flavour"], "")
+            return out
+        single(got["inner"], want["inner"], case["flavour"], "single_head_attention.")
+        for key in ("out_size", "d_v", "d_q", "d_k", "num_heads"):
+            if got.get(key) != want.get(key):
+                out.append(f"constructor: {key} of the module is {got.get(key)}, documented {want.get(key)} "
+                           f"(arguments as spelled: {effective_spelling(case)})")
+        if got.get("dim") != want["inner"]["dim"]:
+            out.append(f"constructor: dim of the multi-headed module is {got.get('dim')}, the wrapped module's "
+                       f"is {want['inner']['dim']}")
+        H = want["num_heads"]
+        for key, n in (("WQ_rows", H * want["d_q"]), ("WK_rows", H * want["d_k"]), ("WV_rows", H * want["d_v"]),
+                       ("WC_rows", want["out_size"])):
+            if got.get(key) != n:
+                out.append(f"constructor: {key} = {got.get(key)}, documented {n}")
+        return out
+
     def predicate(self, case, impl, model):
         fails = []
         if case["kind"] == "shape":
@@ -1892,6 +2397,9 @@ class C20(PropertyCheck):
                               "value returned", "C20.dim_minus_one_accepted"))
             if "error" in impl:
                 fails.append((f"unexpected {impl['error']}: {impl.get('message')}", "C20.raises"))
+            if "check_input" in impl and impl["check_input"] != impl.get("raised"):
+                fails.append((f"check_input called directly: {impl['check_input'] or 'accepts'}; the call: "
+                              f"{impl.get('raised') or 'returns a value'}", "C20.check_input"))
             return fails
         if "error" in impl:
             return [(f"attention raised {impl['error']} on a legal call: {impl.get('message')}",
@@ -1985,6 +2493,26 @@ class C20(PropertyCheck):
         t.append("window=" + (case["window"]["kind"] if case.get("window") and case["mask"] == "some" else "none"))
         if case.get("vconst") is not None and not case.get("alias"):
             t.append("value_coordinate_0=constant")
+        # argument spellings (effective, i.e. after normalisation)
+        if case.get("ctor"):
+            for w, eff in effective_spelling(case).items():
+                if w == "inner" and case.get("user") and case["flavour"] == "dot":
+                    continue   # the user's own constructor
+                pre = "ctor:" + (case["flavour"] if w == "inner" else "multi")
+                t.append(f"{pre}:required={eff['req']}")
+                for n, how in eff.items():
+                    if n != "req":
+                        t.append(f"{pre}:{n}={how}")
+            if case["flavour"] == "concat" and case.get("hidden") == 1000:
+                t.append("hidden_size=1000 (the documented default)")
+        else:
+            t.append("ctor:legacy spelling (dim positional, the other optional arguments by keyword)")
+        t.append("module_class=" + ("user-defined subclass of GlobalSoftAttention" if case.get("user") and
+                                    case["flavour"] == "dot" else "the library's"))
+        call = case.get("call") or {}
+        t.append("call:arguments=" + call.get("how", "pos") + ("" if case["mask"] == "none" or "omit" not in call.get("how", "pos")
+                                                               else "(mask given)"))
+        t.append("call:entry=" + call.get("entry", "call"))
         if case["kind"] == "multi":
             f = case["flags"]
             t.append("flags=" + "".join("1" if f[n] else "0" for n in ("wq", "wk", "wv", "wc")))
@@ -2029,10 +2557,26 @@ class C20(PropertyCheck):
                 c = dict(case)
                 c[key] = val
                 yield c
-        for key in ("layout", "dtype", "dv_default", "O_default", "vpath", "window", "vconst"):
+        for key in ("layout", "dtype", "dv_default", "O_default", "vpath", "window", "vconst", "user"):
             if key in case:
                 c = dict(case)
                 del c[key]
+                yield c
+        # spellings: towards "every optional argument by keyword, positional call"; the failure must survive
+        for w, sp in (case.get("ctor") or {}).items():
+            for n, how in sp.items():
+                if n == "int_scale":
+                    c = dict(case)
+                    c["ctor"] = {**case["ctor"], w: {a: b for a, b in sp.items() if a != n}}
+                    yield c
+                elif how != ("pos" if n == "req" else "kw"):
+                    c = dict(case)
+                    c["ctor"] = {**case["ctor"], w: {**sp, n: "pos" if n == "req" else "kw"}}
+                    yield c
+        for n, val in (("how", "pos"), ("entry", "call")):
+            if (case.get("call") or {}).get(n, val) != val:
+                c = dict(case)
+                c["call"] = {**case["call"], n: val}
                 yield c
         if case.get("mag") and case.get("mixed"):
             c = dict(case)  # a dtype failure rarely needs the large scores
